@@ -6,7 +6,7 @@ import hv.symx.core  # noqa: F401
 from hy.errors import HySyntaxError
 from hv.props import _outervar as ov
 from hv.props import _scopes as sc
-from hv.props._scopes import GLOBAL, LOG, NONLOCAL, SETV
+from hv.props._scopes import BIND, GLOBAL, LOG, NONLOCAL, SETV
 from hv.symx import core as sx
 from hv.symx.core import E, S
 
@@ -117,6 +117,7 @@ def run(chk):
     LEVELS = [("fn",), ("defn",), ("class",), ("let", ("x",)), ("let", ("y",))]
     maxd = 3 if quick else 4
     pre = [(), (SETV("x"),), (SETV("y"),)]
+    pre_binds = [(BIND("setv-of-try", "x"),), (BIND("setx", "x"),), (BIND("for", "x"),)]      # used at depth <= 2
     post = [(LOG("x"), LOG("y"))]
     inner_fn = []
     for decl in (NONLOCAL("x"), GLOBAL("x"), NONLOCAL("y")):
@@ -134,7 +135,7 @@ def run(chk):
                     return ("fn", tuple(m(v_) for m in (decl, SETV("x"), SETV("y"), LOG("x"), LOG("y"))))
                 for decl in (NONLOCAL("x"), GLOBAL("x"), NONLOCAL("y")):
                     inner = [((lambda v_, decl=decl: mk_inner(v_, decl)),)]
-                    pres = pre if d <= 2 else (pre[:2] if (not quick or any(l[0] == "class" for l in levels)) else pre[:1])
+                    pres = pre + pre_binds if d <= 2 else (pre[:2] if (not quick or any(l[0] == "class" for l in levels)) else pre[:1])
                     for prog in sc.spine_programs(list(levels), pres, post, inner):
                         PROGS.append(tuple(m(v) for m in mod_pre) + prog + (("log", "x"), ("log", "y")))
     import gc; gc.collect(); gc.freeze()  # forked workers then touch (copy) far fewer pages
